@@ -610,5 +610,5 @@ def main(chk: Check) -> None:
     if bad:
         raise RuntimeError("WHATWG resolver self-test failed: " + "; ".join(bad[:3]))
     chk.extra["resolver_vectors"] = len(W.VECTORS)
-    chk.explore("redirects", redirect_cases, run_redirect, quick=5000, thorough=90000)
-    chk.explore("cookies", cookie_cases, run_cookie, quick=1200, thorough=20000)
+    chk.explore("redirects", redirect_cases, run_redirect, quick=4000, thorough=90000)
+    chk.explore("cookies", cookie_cases, run_cookie, quick=1000, thorough=20000)
